@@ -167,10 +167,15 @@ def mapping_job(rng, area, failure, tag, tmp_dir=True, obsm=False):
     sub.mkdir()
     fault = None
     if failure.startswith('worker_'):
-        _, mode, point = failure.split('_')
+        _, mode, point = failure.split('_')[:3]
         fault = {'mode': mode, 'point': point}
+        if failure.endswith('_slowsibling'):
+            # the siblings are still at work when the failure is noticed
+            fault['save_delay'] = 0.6
     real_failure = failure if failure not in ('unwritable_output',) \
         and fault is None else 'success'
+    if fault is not None:
+        real_failure = 'worker_raise'     # build_case: >= 5 cells, no defect
     cfg, desc = c20suite.build_case(rng, sub, real_failure, awkward=False)
     shutil.rmtree(sub / 'out')
     shutil.rmtree(sub / 'tmp')
@@ -208,6 +213,12 @@ def mapping_job(rng, area, failure, tag, tmp_dir=True, obsm=False):
         import anndata
         n = anndata.read_h5ad(cfg['query_path'], backed='r').shape[0]
         fault['r0'] = 2 * rng.randrange(0, max(1, (n + 1) // 2))
+        if 'save_delay' in fault:
+            fault['r0'] = 0
+            cfg['type_assignment']['n_processors'] = 3
+            # flat taxonomy: every worker's last (only) parent node is the
+            # one it is computing when the failure is noticed
+            cfg['flatten'] = rng.random() < 0.5
         job['fault'] = fault
     return {'stage': 'mapping', 'job': job,
             'inputs': inputs, 'outputs': outputs, 'scratch': scratch,
@@ -216,20 +227,25 @@ def mapping_job(rng, area, failure, tag, tmp_dir=True, obsm=False):
                                      'duplicate_cells')}
 
 
-def precompute_job(rng, area, tag, encoding='csr'):
+def precompute_job(rng, area, tag, encoding='csr', copy_data_over=False,
+                   tmp_dir=True):
     ref = area.inp / (tag + '_ref.h5ad')
     make_reference(rng, ref, encoding)
     out = area.out / (tag + '_stats.h5')
     return {'stage': 'precompute',
             'job': {'stage': 'precompute', 'data_path': str(ref),
                     'column_hierarchy': ['class', 'cluster'],
-                    'output_path': str(out), 'tmp_dir': str(area.tmp),
+                    'output_path': str(out),
+                    'tmp_dir': str(area.tmp) if tmp_dir else None,
+                    'copy_data_over': copy_data_over,
                     'n_processors': rng.choice([1, 2]),
                     'rows_at_a_time': rng.choice([5, 11, 100])},
             'inputs': [str(ref)], 'outputs': [str(out)],
             'scratch': [str(area.tmp), str(area.systmp)],
             'failure': 'success',
-            'encoding': encoding, 'expect_ok': True}
+            'encoding': '%s/copy=%s/tmp=%s' % (encoding, copy_data_over,
+                                               tmp_dir),
+            'expect_ok': True}
 
 
 def markers_job(rng, area, tag, stats_path):
@@ -430,6 +446,17 @@ def snapshot(area):
     return lst, dig
 
 
+def created_paths(spec):
+    """paths the traced process tree of the run created"""
+    out = set()
+    for ev in spec.get('events') or []:
+        if ev['call'] == 'mkdir' or (
+                ev['call'] in ('openat', 'open', 'creat')
+                and 'O_CREAT' in ev.get('flags', '')):
+            out.add(ev['path'])
+    return out
+
+
 def temp_class(name, stage):
     """stable class of a temporary's name: its prefix without the random part
     and the timestamp"""
@@ -450,6 +477,7 @@ def run_specs(ctx, area, specs, history, traced=True):
     handles = []
     for s in specs:
         s['tag'] = area.tag()
+        s['job']['watch'] = list(s['scratch'])
         if traced:
             handles.append(fsmon.start_traced(s['job'], area.job, s['tag'],
                                               tmpdir=area.systmp))
@@ -520,10 +548,40 @@ def check_one(ctx, area, spec, all_specs, history, before, dig0, after,
                                after=dig1.get(p)))
     # P2 scratch restored (stage returned; mapping also when it failed)
     if st['ok'] or spec['stage'] == 'mapping':
+        alone = len(all_specs) == 1 and 'at_return' in st
+        # among concurrent runs a leftover is charged to the run whose
+        # process tree created it (when the traces tell)
+        others_made = set()
+        if len(all_specs) > 1:
+            mine = created_paths(spec)
+            for o in all_specs:
+                if o is not spec:
+                    others_made |= created_paths(o) - mine
         for sd in spec['scratch']:
             left = sorted(p for p in after
                           if under(p, sd) and p not in before
-                          and p not in all_outputs)
+                          and p not in all_outputs
+                          and not any(under(p, m) for m in others_made))
+            if alone:
+                # present when the call returned / appeared only afterwards
+                # (written by a worker that outlived the call)
+                at_ret = set(st['at_return'])
+                appeared = [p for p in left if p not in at_ret]
+                left = [p for p in left if p in at_ret]
+                if appeared:
+                    pat = temp_class(os.path.basename(appeared[0]),
+                                     spec['stage'])
+                    ctx.violation(
+                        'C19/scratch/appears-after-return/%s%s' % (
+                            'system-tmp/' if sd == str(area.systmp) else '',
+                            pat),
+                        '%s run (%s, %s): the scratch directory was clean '
+                        'when the call returned, then %s appeared (written '
+                        'by a process that outlived the call)'
+                        % (spec['stage'], history, spec['failure'],
+                           [os.path.relpath(x, sd) for x in appeared[:4]]),
+                        dict(detail, appeared=appeared, job=spec['job'],
+                             settled=st.get('settled')))
             gone = sorted(p for p in before if under(p, sd)
                           and p not in after and p not in all_outputs)
             if left:
@@ -739,7 +797,8 @@ MAPPING_FAILURES = ['negative_raw', 'no_marker_overlap',
                     'corrupt_query', 'corrupt_stats', 'corrupt_markers',
                     'duplicate_genes', 'worker_raise_before',
                     'worker_exit_before', 'worker_kill_before',
-                    'worker_raise_after', 'unwritable_output']
+                    'worker_raise_after', 'worker_raise_before_slowsibling',
+                    'worker_kill_before_slowsibling', 'unwritable_output']
 
 
 def history_mapping(ctx, rng, failure, encoding_hint=None, tmp_dir=True,
@@ -779,7 +838,7 @@ def history_mapping(ctx, rng, failure, encoding_hint=None, tmp_dir=True,
 
 
 def history_stages(ctx, rng, encoding='csr', twice=False,
-                   fixed_valid=True):
+                   fixed_valid=True, copy_data_over=False, tmp_dir=True):
     """precompute -> reference markers (on the fresh stats) and validate, all
     in the same scratch/output directories with stale files planted"""
     hist = 'stale+chain'
@@ -790,7 +849,8 @@ def history_stages(ctx, rng, encoding='csr', twice=False,
         state = rng.getstate()
 
         def build_p(r, a):
-            return precompute_job(r, a, 'p', encoding)
+            return precompute_job(r, a, 'p', encoding, copy_data_over,
+                                  tmp_dir)
         p = build_p(rng, area)
         v_layer = rng.choice(['X', 'X', 'raw_counts'])
         state_v = rng.getstate()
@@ -961,7 +1021,14 @@ def run(ctx):
         history_mapping(ctx, rng, fails[0], encoding_hint='csc')
         history_mapping(ctx, rng, 'unwritable_output', traced_all=False,
                         then_success=False)
-        history_stages(ctx, rng, rng.choice(['csr', 'csc', 'dense']))
+        # a worker fails while its siblings are still at work: whatever they
+        # write after the failed call has returned is looked for as well
+        history_mapping(ctx, rng, rng.choice(
+            ['worker_raise_before_slowsibling',
+             'worker_kill_before_slowsibling']), traced_all=False,
+            then_success=False)
+        history_stages(ctx, rng, rng.choice(['csr', 'csc', 'dense']),
+                       copy_data_over=True)
         history_pair(ctx, rng)
         # CSC: the row iterator transcribes the query to CSR in scratch space
         history_election(ctx, rng, 'csc')
@@ -975,9 +1042,11 @@ def run(ctx):
         history_mapping(ctx, rng, None, obsm=True)
         history_mapping(ctx, rng, 'negative_raw', obsm=True,
                         encoding_hint='csc')
-        for enc in ('csr', 'csc', 'dense', 'csc'):
-            history_stages(ctx, rng, enc, twice=(enc == 'csr'),
-                           fixed_valid=(enc != 'dense'))
+        for i, enc in enumerate(('csr', 'csc', 'dense', 'csc', 'csr',
+                                 'dense')):
+            history_stages(ctx, rng, enc, twice=(i == 0),
+                           fixed_valid=(enc != 'dense'),
+                           copy_data_over=(i % 2 == 1), tmp_dir=(i < 4))
         for i in range(10):
             history_pair(ctx, rng, n=2 if i < 8 else 3)
         for i, enc in enumerate(['dense', 'csr', 'csc', 'dense', 'csr',
